@@ -135,6 +135,7 @@ def sources(text, scratch, has_qname_values, lxml_etree, ET, xmlschema):
         'lxml_tree': lambda: lxml_etree.fromstring(data),
         'XMLResource': lambda: xmlschema.XMLResource(text),
         'lxml_commented': lambda: commented(lxml_etree.fromstring(data), lxml_etree),
+        'XMLResource_lazy': lambda: xmlschema.XMLResource(data, lazy=True),
     }
     if not has_qname_values:
         out['et_element'] = lambda: ET.fromstring(text)
@@ -269,7 +270,10 @@ def compare_document(res, xmlschema, schema, text, label, case, has_qname_values
     if ref_valid:
         ref_data = observe(xmlschema, schema, srcs['str'], 'decode_strict', opts).get('data')
     kinds = list(srcs)
-    combos = [(r, k) for r in ROUTES for k in kinds if not (r.startswith('xml_document') and k == 'XMLResource')]
+    combos = [(r, k) for r in ROUTES for k in kinds if not (r.startswith('xml_document') and k.startswith('XMLResource'))]
+    # a lazy resource: the validation-only entry points (what lazy decoding returns is the matter of C06)
+    combos = [(r, k) for r, k in combos if k != 'XMLResource_lazy' or r in ('is_valid', 'iter_errors', 'validate', 'pkg_is_valid',
+                                                                           'pkg_iter_errors', 'pkg_validate')]
     if opts:
         # the option is passed to every entry point that takes it (XmlDocument validates at construction, without it)
         combos = [(r, k) for r, k in combos if not r.startswith('xml_document')]
@@ -294,7 +298,20 @@ def compare_document(res, xmlschema, schema, text, label, case, has_qname_values
                           f'{label}: {route} on {kind} says valid={out["valid"]}, iter_errors on str says {ref_valid} ({ref_first})')
             continue
         loose = kind.startswith('et_')   # a bare ElementTree element carries no prefix declarations
-        if kind == 'lxml_commented':
+        if kind == 'XMLResource_lazy':
+            # errors of a lazy resource carry no element: compare the reasons
+            # (and a lazy run reports the errors of the root's attributes after those of its children: the order is the
+            # matter of C06; here the same multiset of reasons, and the first error raised must be one of them)
+            unloc = lambda k: None if k is None else (k[0], None)
+            ref_errors_c = sorted(unloc(k) for k in ref_errors)
+            if 'errors' in out:
+                out['errors'] = sorted(unloc(k) for k in out['errors'])
+            if 'first' in out:
+                out['first'] = unloc(out['first'])
+                ref_first_c = out['first'] if out['first'] in ref_errors_c else unloc(ref_first)
+            else:
+                ref_first_c = unloc(ref_first)
+        elif kind == 'lxml_commented':
             # the child position quoted in a message counts comments and PIs too: compare on reasons without it
             import re as _re
             unpos = lambda k: None if k is None else (_re.sub(r'position \d+', 'position N', k[0]), k[1])
@@ -346,6 +363,13 @@ def run_gen(spec, res):
     for d in range(spec['docs']):
         fam = rng.choice(('shop', 'shop', 'tree', 'ctx', 'fx'))
         doc = D.GENERATORS[fam](rng)
+        if d == 1:
+            # one long document of leaf records with a key / keyref on the root (a lazy resource reads it in several steps)
+            fam = 'flat'
+            if (fam, '1.0') not in schemas:
+                for v, cls in (('1.0', xmlschema.XMLSchema10), ('1.1', xmlschema.XMLSchema11)):
+                    schemas[fam, v] = cls(D.family_xsd(fam, v))
+            doc = D.gen_flat(rng, rng.choice((None, 'dup_key_late', 'dangling_keyref_late')), rng.randint(700, 1200))
         version = rng.choice(('1.0', '1.1'))
         schema = schemas[fam, version]
         prefixes = D.default_prefixes(fam, rng)
